@@ -1516,3 +1516,50 @@ def c09f(F, R):
                     R.bad(f"{name}|{l['name']}|borrow", f"`{name}` takes `&mut self.{l['name']}`", loc(a))
     if n == 0:
         raise Anchor("no assignment to the lexer cursor found")
+
+
+@rule("C07", "C07.m.directive-vocabulary", floor=22)
+def c07m(F, R):
+    """every directive spelling of the target assembler (RARS, reference/rars_directives.json) is in `DirectiveToken::from_str`, and the spelling that closes a macro there (`.end_macro`) maps to the variant on which the macro-skipping loop stops: a terminator the table does not know makes the loop discard the rest of the file without a word"""
+    from .p_c08 import from_str_table, arm_table, ctor_names, ref
+    DT = "riscv_analysis::parser::directive::DirectiveToken"
+    rd = ref("rars_directives.json")
+    m, lowered, p = from_str_table(F, R, DT, "DirectiveToken")
+    text2var = {}
+    for lit, arm in arm_table(m):
+        if lit == "_":
+            continue
+        vs = ctor_names(arm["body"], DT)
+        if len(vs) == 1:
+            text2var[lit] = vs[0]
+    if lowered:
+        R.ok("lowercase", detail="directive spelling is lower-cased before the table")
+    else:
+        R.bad("lowercase", "DirectiveToken::from_str does not lower-case its input", loc(m))
+    for d in rd["directives"]:
+        if d in text2var:
+            R.ok(f"directive|{d}", detail=f"{d} -> DirectiveToken::{text2var[d]}")
+        else:
+            R.bad(f"directive|{d}", f"the RARS directive `{d}` is not in DirectiveToken::from_str", loc(m))
+    # the loop that skips a macro body: `if new_dir == DirectiveToken::<X> { break }`
+    pf = [q for q in F.fns if q.endswith("::try_from") and "ParserNode" in q and "TryFrom" in q]
+    stops = []
+    for q in pf:
+        for lp in walk(F.fn(q)["hir"]["value"], pats=False):
+            if lp.get("k") != "Loop":
+                continue
+            for b in walk(lp["body"], pats=False):
+                if b.get("k") == "Binary" and b["op"] == "Eq":
+                    for side in (peel(b["a"]), peel(b["b"])):
+                        if side.get("k") == "Path" and (side.get("res") or "").startswith(DT + "::"):
+                            stops.append((short(side["res"]), b))
+    stop_vs = sorted({v for v, _ in stops})
+    if not stops:
+        R.bad("macro-skip|stop", "UNEXTRACTABLE: no loop that stops on a DirectiveToken variant (the macro-skipping loop) found in the node parser", None)
+        return
+    for d in rd["macro_close"]:
+        v = text2var.get(d)
+        if v in stop_vs:
+            R.ok(f"macro-close|{d}", detail=f"{d} -> {v}, on which the macro-skipping loop stops", where=loc(stops[0][1]))
+        else:
+            R.bad(f"macro-close|{d}", f"the macro-skipping loop stops on {stop_vs} only, and `{d}` (how RARS closes a macro) {'maps to ' + v if v else 'is not a known directive'}: after `.macro .. {d}` every following line of the file is discarded without a diagnostic", loc(stops[0][1]))
